@@ -66,6 +66,13 @@ def _cases(tier):
     for v in A.VALUE_NAMES:
         for v2 in ("null", A.ABSENT, None):
             yield {"in": ["V", v, v2], "opts": "conv"}
+    # the key as a plain required field FOLLOWED by an optional pseudo-typed field (whose declaration calls imported helpers such as
+    # attr.converters.optional / dataclasses.field after the key's name has been bound in the class body)
+    seen4 = set()
+    for k in itertools.chain(A.word_forms(A.KEY_WORDS, ["-"]), A.KEYWORD_CASES):
+        if A.realistic_key(k) and k not in seen4:
+            seen4.add(k)
+            yield {"in": ["K4", k], "opts": "key"}
     # user-given root model names (what -m NAME supplies): plural / snake / lower-case / reserved names next to keys whose generated
     # class name is the singular CamelCase form of the same word; two roots whose names differ only by that normalisation
     for name in ROOT_NAMES:
@@ -76,6 +83,10 @@ def _cases(tier):
     for name in ("Node", "Item", "order", "Users"):
         # the root merges with its own list items and another nested model generates the root's name from its key
         yield {"in": ["R", [name], "recursive"], "opts": "std", "judge_nontree": True}
+    for name in ("List", "Optional", "user-profile", "class", "Юзер", "User", "datetime"):
+        # a root model (given with its own -m name) that is also referenced from a class nested inside another root
+        yield {"in": ["R", ["Post", name], "referenced_root"], "opts": "std", "judge_nontree": True}
+        yield {"in": ["R", [name, "Post"], "referenced_root"], "opts": "std", "judge_nontree": True}
     for pair in (["Photo", "Photos"], ["Users", "User"], ["order_lines", "OrderLine"], ["Item", "Items"], ["Field", "Fields"]):
         yield {"in": ["R", pair], "opts": "std"}
 
@@ -103,6 +114,9 @@ def _samples(case):
     if tag == "K3":     # the key as an optional scalar AFTER an optional container (defaults precede it), next to a date-typed field
         k = case["in"][1]
         return [{"zz": [1], "when": "2020-01-01", k: 1}, {"when": "2021-01-01"}], [r"k\d"]
+    if tag == "K4":
+        k = case["in"][1]
+        return [{k: 1, "zz": "1", "yy": "1.5"}, {k: 2, "yy": None}], None
     if tag == "V":
         s = [A.obj1(case["in"][1])]
         if case["in"][2] is not None:
@@ -149,7 +163,7 @@ def _shape(case):
     tag = case["in"][0]
     if tag == "G":
         return ["G" + A.graph_name(case["in"][1])]
-    if tag in ("K", "K2", "K3", "KL"):
+    if tag in ("K", "K2", "K3", "K4", "KL"):
         k = case["in"][1]
         toks = []
         for w in A.KEY_WORDS:
@@ -175,6 +189,9 @@ def _build(case, samples, dkr):
             key = inflection.underscore(names[0]).rstrip("s")
             body = {"id": 1, "name": "n", "children": [{"id": 2, "name": "m", "children": [], "own0": 5, "extra0": [1]}], key: {"other": 1, "thing": "x"}}
         roots = {n: [dict(copy.deepcopy(body), **{f"own{i}": i, f"extra{i}": [i]})] for i, n in enumerate(names)}
+        if len(case["in"]) > 2 and case["in"][2] == "referenced_root":
+            roots = {n: ([{"title": "t", "meta": {"author": {"login": "x", "uid": 1}, "n": 1}, "tags": [{"author": {"login": "z", "uid": 3}}]}] if n == "Post"
+                         else [{"login": "y", "uid": 2}]) for n in names}
         return pipeline.build_roots(roots, types=pipeline.ALL_TYPES, merge=case.get("merge", "default"))
     return pipeline.build(samples, types=pipeline.ALL_TYPES, dkr=dkr, merge=case.get("merge", "default"))
 
